@@ -49,6 +49,31 @@ def run(ctx):
             report("Create modified files other than its own index/recovery files: %s" % bad, {"lines": [line], "mode": mode, "impl": i[:1500], "class": {"op": "create"}})
         elif L.canon(i, mode) != L.canon(m, mode):
             report("Create differs from the model", {"lines": [line], "mode": mode, "impl": i[:1500], "model": m[:1500], "class": {"op": "create"}}, nf=True)
+    # Create AGAIN over an existing set with the set's own files among the inputs (`par c arc.par2 *` a second time): the
+    # inputs must be byte-identical afterwards whatever Create answers - it has to refuse before it writes
+    again = []
+    for k, (ps, i0) in enumerate(zip(csets, ci)):
+        p0 = L.parse_result(i0)
+        if p0["res"] != "ok":
+            continue
+        st0 = L.apply_changed(ps.input_fs(), p0["changed"])
+        outs0 = sorted(p_ for p_ in p0["changed"])
+        data = [ps.paths[n] for n in ps.files]
+        for extra_in in ([ps.index], outs0[-1:], outs0, [P.DIR + "/" + ps.base + ".mine.par2"]):
+            fs_ = dict(st0); fs_.setdefault(P.DIR + "/" + ps.base + ".mine.par2", b"my own file, named like a recovery file")
+            mode = "real" if k % 2 else "mem"
+            again.append((ps, mode, fs_, data + extra_in, L.line_create("p2", mode, ps.index, ps.slice, ps.nparity, 1, data + extra_in, fs_)))
+    agi, agm = P.run_both(ctx, vh, model, [a_[4] for a_ in again])
+    for (ps, mode, fs_, ins, line), i, m in zip(again, agi, agm):
+        pi = L.parse_result(i)
+        ctx.count("create-again|" + L.hx(L.md5(line.encode())), True)
+        after = L.apply_changed(fs_, pi["changed"])
+        hurt = [p_ for p_ in ins if after.get(p_) != fs_.get(p_)]
+        replay = {"lines": [line], "mode": mode, "impl": i[:1500], "model": m[:1500], "class": {"op": "create-inputs-are-outputs"}}
+        if hurt:
+            report("Create modified its own input files %s (inputs that are also output / recovery files of the set), result %s" % (hurt, pi["res"]), replay)
+        elif L.canon(i, mode) != L.canon(m, mode):
+            report("Create over its own outputs differs from the model: impl=%s model=%s" % (i[:100], m[:100]), replay, nf=True)
     vi, vm = P.run_both(ctx, vh, model, [c["vline"].replace("p2 verify mem", "p2 verify " + c["mode"], 1) if False else c["vline"] for c in cases])
     ri, rm = P.run_both(ctx, vh, model, [c["rline"] for c in cases])
     # real-mode Verify on the same states: the directory snapshot must be unchanged
